@@ -16,7 +16,7 @@ use crate::msg::{
     AllowedCollectionCodeIdResponse, AllowedCollectionCodeIdsResponse, ExecuteMsg, InstantiateMsg,
     ParamsResponse, QueryMsg, SudoMsg, TokenMergeMinterCreateMsg, TokenMergeUpdateParamsMsg,
 };
-use crate::state::SUDO_PARAMS;
+use crate::state::{TokenMergeFactoryParams, SUDO_PARAMS};
 
 // version info for migration info
 const CONTRACT_NAME: &str = "crates.io:token-merge-factory";
@@ -123,6 +123,36 @@ pub fn sudo(deps: DepsMut, env: Env, msg: SudoMsg) -> Result<Response, ContractE
     }
 }
 
+/// Base update params shared by sudo and migrate (mirrors base-factory `update_params`)
+fn update_base_params(params: &mut TokenMergeFactoryParams, param_msg: &TokenMergeUpdateParamsMsg) {
+    params.code_id = param_msg.code_id.unwrap_or(params.code_id);
+
+    if let Some(frozen) = param_msg.frozen {
+        params.frozen = frozen;
+    }
+
+    if let Some(creation_fee) = param_msg.creation_fee.clone() {
+        params.creation_fee = creation_fee;
+    }
+
+    // add new code ids, then rm code ids
+    if let Some(add_sg721_code_ids) = param_msg.add_sg721_code_ids.clone() {
+        for code_id in add_sg721_code_ids {
+            params.allowed_sg721_code_ids.push(code_id);
+        }
+    }
+    params.allowed_sg721_code_ids.dedup();
+    if let Some(rm_sg721_code_ids) = param_msg.rm_sg721_code_ids.clone() {
+        for code_id in rm_sg721_code_ids {
+            params.allowed_sg721_code_ids.retain(|&x| x != code_id);
+        }
+    }
+
+    params.max_trading_offset_secs = param_msg
+        .max_trading_offset_secs
+        .unwrap_or(params.max_trading_offset_secs);
+}
+
 /// Only governance can update contract params
 pub fn sudo_update_params(
     deps: DepsMut,
@@ -130,6 +160,8 @@ pub fn sudo_update_params(
     param_msg: TokenMergeUpdateParamsMsg,
 ) -> Result<Response, ContractError> {
     let mut params = SUDO_PARAMS.load(deps.storage)?;
+
+    update_base_params(&mut params, &param_msg);
 
     params.max_token_limit = param_msg
         .extension
@@ -229,6 +261,8 @@ pub fn migrate(
 
     if let Some(msg) = msg {
         let mut params = SUDO_PARAMS.load(deps.storage)?;
+
+        update_base_params(&mut params, &msg);
 
         params.max_token_limit = msg
             .extension
